@@ -13,6 +13,8 @@ use lsp_types::{
 };
 
 pub use semantic_token_builder::{SemanticTokenModifierKind, SemanticTokenTypeKind};
+#[cfg(emmyluals_emmylua_analyzer_rust_verif)]
+pub use semantic_token_builder::verif_semantic_push_and_build;
 use tokio_util::sync::CancellationToken;
 
 use super::RegisterCapabilities;
